@@ -8,7 +8,7 @@ import random
 from .refmodel import AA, POS, NEG, NEUTRALS
 
 CLASSES = ("idp", "polyampholyte", "polyelectrolyte", "lowcomplexity", "hydrophobic",
-           "uniform", "single", "short", "neutral_rich", "sty_rich", "titratable", "lookalike")
+           "uniform", "single", "short", "neutral_rich", "sty_rich", "titratable", "lookalike", "linker")
 
 # legal protein words that read like something else: nucleotide strings (A, C, G, T and the IUPAC ambiguity letters that are
 # also residues), open reading frames, DSSP / secondary-structure strings, hexadecimal-looking words
@@ -39,6 +39,18 @@ def rand_seq(rng, cls=None, lo=1, hi=400):
     n = max(lo, min(hi, loglen(rng, max(lo, 1), hi)))
     if cls == "single":
         return rng.choice(AA) * n
+    if cls == "linker":
+        # two charged patches joined by a long charge-free linker (GS-, elastin-like, poly-Q constructs)
+        unit = rng.choice(["GS", "GGS", "Q", "VPGVG", "GSAT", "P", "N"])
+        arm = lambda: "".join(rng.choice(rng.choice(["K", "E", "KR", "DE", "KE"])) for _ in range(rng.randint(1, 8)))
+        a1, a2 = arm(), arm()
+        span = rng.choice([rng.randint(5, 60), rng.randint(90, 130), rng.randint(100, 400)])
+        room = hi - len(a1) - len(a2)
+        if room < 1:
+            return (a1 + a2)[:max(1, hi)]
+        span = max(1, lo - len(a1) - len(a2), min(span, room))
+        link = (unit * (span // len(unit) + 1))[:span]
+        return a1 + link + a2
     if cls == "lookalike":
         if rng.random() < 0.4:
             return rng.choice(LOOKALIKE_WORDS)
@@ -147,3 +159,9 @@ def distinct_compositions(rng, count, nmin=10, nmax=30):
 # valid one-letter sequences that happen to spell three-letter residue codes, file names or number-like words
 CODE_WORDS = ["ALA", "MET", "ARG", "SER", "LYSLYS", "GLYGLY", "ASPARGLYS", "METSERLYS", "LYSARGLYS", "GLYSERGLYSER", "HISTHRVALALA",
               "TYRILEPHEASN", "ARGASPLYSGLYSERASPARGALALYSASP", "ALAGLY", "METHIS", "NAN", "INF", "GSPGRGLYS", "LAA", "GYLAAL"] + LOOKALIKE_WORDS
+
+
+# strings a user may pass as a GROUP of residues that also read as words (names of residue classes, keywords): a string
+# group is the set of its letters, whatever it spells
+GROUP_WORDS = ["CHARGED", "ACIDIC", "ALIPHATIC", "NEGATIVE", "TINY", "SMALL", "LARGE", "ALL", "ANY", "HELICAL", "STRAND", "KEY", "NET",
+               "PHE", "ASP", "GLY", "MET", "HIS", "ALA", "TRP", "NAN"]
